@@ -977,7 +977,7 @@ fn enumerate(args: &Args) -> Vec<CCase> {
     for s in subjects(th) {
         v.push(CCase::Hist { subj: s.clone(), depth: 2, cap: if th { 160 } else { 90 } });
         if th {
-            v.push(CCase::Hist { subj: s.clone(), depth: 3, cap: 40 });
+            v.push(CCase::Hist { subj: s.clone(), depth: 3, cap: 64 });
         }
         v.push(CCase::Sched { subj: s.clone(), threads: 2, per_thread: 3, batches: if th { 12 } else { 3 } });
         v.push(CCase::Sched { subj: s.clone(), threads: 3, per_thread: 2, batches: if th { 6 } else { 1 } });
